@@ -96,6 +96,14 @@ CONC_MC = {'module': 'MC_Conc', 'what': 'Conc: 3 goroutines x 2 calls x 3 argume
 CONC_MC_NEG = {'module': 'MC_Conc', 'cfg': 'MC_Conc_shared', 'expect_violation': 'PerGoroutineSequential',
                'what': 'negative control: with package-level working storage TLC finds a result computed from another goroutine\'s argument'}
 
+MEMO_MC = [{'module': 'MC_Memo', 'cfg': 'MC_Memo_none', 'what': 'Memo: one caller buffer refilled between calls, byte and string parses, up to 4 calls: a library that remembers nothing returns what each argument means'},
+           {'module': 'MC_Memo', 'cfg': 'MC_Memo_copy', 'what': 'Memo: remembering the last input by COPY is still correct for every history'},
+           {'module': 'MC_Memo', 'cfg': 'MC_Memo_alias', 'expect_violation': 'ResultIsOfArgument',
+            'what': 'negative control: remembering the caller\'s own slice returns the previous result after a refill (the behaviour the reuse / twin2 scenarios of the harness look for)'}]
+LAZY_MC = [{'module': 'MC_Lazy', 'cfg': 'MC_Lazy_read', 'what': 'Lazy: configuration changed between calls, up to 3 calls: a library that reads the package variables at every call behaves according to the configuration in force'},
+           {'module': 'MC_Lazy', 'cfg': 'MC_Lazy_rederive', 'what': 'Lazy: deriving something from the configuration is still correct when it is derived again after a change'},
+           {'module': 'MC_Lazy', 'cfg': 'MC_Lazy_frozen', 'expect_violation': 'ConfigInForce',
+            'what': 'negative control: what was derived at first use and kept makes a later call behave as under the first configuration (the behaviour the per-process prologue of the harness produces)'}]
 CONC_PROOF = vf.tlaps_leg('ConcProof', 'Conc with private working storage, ANY number of goroutines, arguments and calls: every goroutine\'s own history is sequential (inductive invariant, TLAPS)')
 
 def CONC(name):
@@ -283,7 +291,7 @@ PLANS = {
         'level_text': 'Generic receiver machine model-checked with action properties (a failing call changes nothing, scribbling changes nothing); Util.tla composes the five package machines (Isolation, KeepOnFail checked exhaustively to depth 3/4) and its simulated behaviours are replayed on persistent real receivers; seeded histories and string/bytes twins judged by TLC.',
         'pre': [gen_util_behaviours],
         'drivers': [{'name': 'c17', 'shards': 8}, {'name': 'util', 'shards': 4, 'per': 6000}, {'name': 'ovr', 'shards': 1}, CONC('c17')],
-        'mc': [UTIL_MC, {'module': 'MC_C17', 'what': 'generic receiver machine: 3 parsable / 3 unparsable inputs, histories to depth 5: a failing call never changes the receiver, scribbling the input never changes earlier results'}],
+        'mc': [UTIL_MC] + MEMO_MC + [{'module': 'MC_C17', 'what': 'generic receiver machine: 3 parsable / 3 unparsable inputs, histories to depth 5: a failing call never changes the receiver, scribbling the input never changes earlier results'}],
         'codes': ['C17.'],
         'rule': 'recv.call: seeded histories (12 steps) of UnmarshalText/JSON/Binary/Scan per type with valid, near-valid and over-long inputs, receiver logged before/after, input snapshot and scribble; '
                 'twin: every parser entry point on string, []byte, named string, named []byte with equal values and equal error messages',
@@ -293,7 +301,7 @@ PLANS = {
         'level_text': 'The limit gate is model-checked for the five reference parsers; every parsing/validating/comparing entry point is driven with seeded random and structured bytes (invalid UTF-8, NUL, BOM, long runs), the full limit matrix, form prefixes at limit+1 and non-ASCII bytes at every position; demands: no panic, too-long <=> over the limit, no echo of the input.',
         'pre': [gen_util_behaviours],
         'drivers': [{'name': 'c18', 'shards': 8, 'per': 8000}, {'name': 'util', 'shards': 4, 'per': 6000}, CONC('c18')],
-        'mc': [UTIL_MC, {'module': 'MC_C18', 'what': 'limit gate shared by the five parsers: maxLen x input length grid'}],
+        'mc': [UTIL_MC] + LAZY_MC + [{'module': 'MC_C18', 'what': 'limit gate shared by the five parsers: maxLen x input length grid'}],
         'codes': ['C18.'],
         'rule': 'every parsing / validating / comparing entry point of the five packages on seeded random bytes, fragment soups (invalid UTF-8, multi-byte runes, NUL, BOM), long runs and mutated valid texts, '
                 'under all rule subsets; limit matrix MaxInputLength in {0,1,default,default+1} x lengths {0,1,limit-1,limit,limit+1,limit+2,10x}; demands: no panic, too-long <=> over the limit, message does not echo the input',
